@@ -27,6 +27,7 @@ RULES_DOC["R8"] = "= C07.R1: the waiting pops of the shared pools release the po
 RULES_DOC["X5"] = common.X5_DOC
 RULES_DOC["X6"] = common.X6_DOC
 RULES_DOC["R9"] = "the absolute deadline of ABT_cond_timedwait is tv_sec + tv_nsec scaled by 1e-9, with both members of the caller's timespec used unmodified (no modulo or clamping of tv_nsec: an un-normalised timespec still means the instant it names)"
+RULES_DOC["R12"] = "= C14.R10: the generic timed pop converts the unit it received through ABTI_unit_get_thread (a user-defined pool's unit popped by a blocking pop is delivered, not reinterpreted)"
 RULES_DOC["R11"] = "= C07.R4: the waiting pops take ONE unit from the end the context selects (all pop variants of a pool agree): a blocking pop that removes two units and returns one loses the unit that was pushed to wake it"
 RULES_DOC["R10"] = "= C05.R2: signal and broadcast look at the wait list only under the condition's lock (a waiter between its mutex release and its enqueue is not missed -- it would otherwise sleep until its timeout)"
 RULES_DOC.update({
@@ -515,3 +516,5 @@ def run(P, rep, tier):
     rule_R9(P, rep)
     common.borrow(rep, P, C05.rule_R2, "R10")
     common.borrow(rep, P, C07.rule_R4, "R11")
+    from . import C14
+    common.borrow(rep, P, C14.rule_R10, "R12")
